@@ -161,7 +161,7 @@ def _is(a, b):
 
 
 def _cadence(rep, tier):
-    Ks = [2, 3] if tier == "quick" else [2, 3, 4, 5]
+    Ks = [2, 3] if tier == "quick" else [2, 3, 4]
     rep.r.bounds["cadence"] = {"steps_K": Ks, "global_step": [0, 2], "symbolic": "flags, learning_starts, batch_size, target/policy delays in [1,3]"}
 
     def dqn_prog(which, K, start):
